@@ -520,7 +520,7 @@ func (s *slowStore) Read(ctx context.Context, from ebu.Offset, limit int) ([]*eb
 func TestC13Timeouts(t *testing.T) {
 	run := vk.New("C13", "timeouts")
 	defer run.Finish()
-	delays := []time.Duration{0, 20 * time.Millisecond, 200 * time.Millisecond}
+	delays := []time.Duration{0, 20 * time.Millisecond, 200 * time.Millisecond, 10 * time.Minute} // (virtual time)
 	timeouts := []time.Duration{0, 5 * time.Millisecond, 50 * time.Millisecond, time.Second}
 	deadlines := []time.Duration{0, 10 * time.Millisecond, 100 * time.Millisecond}
 	idx := 0
@@ -609,7 +609,7 @@ func timeoutScenario(t *testing.T, run *vk.Run, delay, timeout, deadline time.Du
 			}
 		}
 		// let abandoned work (if any) finish, then compare reports with the log
-		time.Sleep(5 * time.Second)
+		time.Sleep(4*delay + 5*time.Second)
 		synctest.Wait()
 		evs, _, _ := st.inner.Read(context.Background(), ebu.OffsetOldest, 0)
 		inLog := map[int]int{}
